@@ -304,6 +304,8 @@ class Classifier(object):
             return ("unknown", "append_format of unresolved template")
         if last in ("print",) or fn.endswith("log.write"):
             return ("ok", "log/print")
+        if last == "_create_splicer":
+            return ("bad", "a named block (user splicer code and its default) is only emitted when the option is on")
         if fn.startswith("self.") and fn.count(".") == 1:
             v = self.comment_only_method(last, func)
             if v:
@@ -449,7 +451,9 @@ def run(repo, run, tier):
                 regions += 1
                 construct = "%s.%s:if %s" % (modname, q, _norm(mod.seg(g.test)))
                 # literalinclude2 (library level) is excluded by the property statement
-                if "literalinclude2" in mod.seg(g.test):
+                if "literalinclude2" in mod.seg(g.test) and not any(
+                        isinstance(x_, ast.Attribute) and x_.attr in OPTS and "options" in (pyflow.dotted(x_) or "").split(".")
+                        for x_ in ast.walk(g.test)):
                     continue
                 results = []
                 for st in g.body + g.orelse:
@@ -647,8 +651,15 @@ def run(repo, run, tier):
                         pass
                     else:
                         continue
-                    doc = any(_reads_opt(t, tainted) for t, pol in pyflow.dominating_tests(c, stop=func))
-                    fills.append((c.lineno, doc))
+                    conds = pyflow.dominating_tests(c, stop=func)
+                    if any(_reads_opt(t, tainted) for t, pol in conds) or last == "_create_splicer":
+                        kind = "doc"        # adds lines only / also when a documentation option is on (block markers)
+                    elif last in ("append", "insert") and not conds and not any(
+                            isinstance(p_, (ast.For, ast.While)) for p_ in parent_chain(c) if p_ is not func):
+                        kind = "sure"       # always adds an element
+                    else:
+                        kind = "maybe"
+                    fills.append((c.lineno, kind))
                 if not fills:
                     continue
                 for r in ast.walk(func):
@@ -667,10 +678,13 @@ def run(repo, run, tier):
                     if not before or later_loop:
                         continue
                     nl += 1
-                    run.check(R1, "%s.%s:len(%s)@%d" % (modname, q, name, len(before)), not all(before),
-                              "`%s` reads the size of `%s`, which up to that point has only been filled under a documentation "
-                              "option: the value (and what it decides - whether a file is written, a block emitted) differs "
-                              "between doxygen/debug on and off" % (" ".join(str(mod.seg(sized)).split())[:40], name), mod.loc(sized))
+                    # whether the list is empty depends on the option when a documentation-dependent fill precedes the read
+                    # and nothing that precedes it is certain to have added an element
+                    run.check(R1, "%s.%s:len(%s)@%d" % (modname, q, name, len(before)), not ("doc" in before and "sure" not in before),
+                              "`%s` reads the size of `%s`, which up to that point has been filled by documentation-dependent code "
+                              "(a guarded append, or block markers of _create_splicer) and by nothing that surely adds an element: "
+                              "the value (and what it decides - whether a file is written, a block emitted) differs between the "
+                              "option on and off" % (" ".join(str(mod.seg(sized)).split())[:40], name), mod.loc(sized))
     run.floor(R1, "size reads of partly filled output lists", nl, 3)
     # a one-line comment is made of one-line text: the `decl:` string of the YAML file may be a block scalar, so a comment
     # shows the declaration as re-generated from the parsed form (gen_decl), never the raw text
